@@ -24,13 +24,14 @@ func init() {
 			"(R10) reporting a panic never blocks the recovery handler (= C15-R5). " +
 			"(R11) in every deferred recover() handler of packages modules and api, each path on which recover() returned non-nil passes ModuleError.Report before the handler ends (no further condition may skip the report). " +
 			"(R12) prepareModules/startModules/stopModules never forget an error carried by a module's report: after report.err tested non-nil no literal 'return nil' is reachable, and a returned accumulator is overwritten inside the loop only by a report error tested non-nil. " +
+			"(R13) the repeat re-arm in the task's deferred clean-up is reachable on the path on which recover() returned non-nil (a panicked repeating task runs again). " +
 			"NOT decided: panics in goroutines that user code spawns itself, process-level behaviour.",
 		Rules: []ruleFn{c06R1, c06R2, c06R3, c06R4, c06R5, c06R6,
 			lockRuleFor("C06-R7", 25, []string{"modules"}, []string{}, map[string]string{}),
 			repoErrRuleFor("C06-R8", 12, func(c *Ctx, fn *ssa.Function) bool { return short(fn.Pkg.Pkg.Path()) == "modules" }, map[string]string{"modules.(*Module).setFailure / modules.Module.RunWorker": "failure-status notification worker; its own panics are reported through the module error channel"}),
 			c06R9,
 			func(c *Ctx, r *Report) { reportNeverBlocksRule(c, r, "C06-R10") },
-			c06R11, c06R12},
+			c06R11, c06R12, c06R13},
 	})
 }
 
@@ -112,7 +113,7 @@ func c06R1(c *Ctx, r *Report) {
 			switch x := in.(type) {
 			case *ssa.Store:
 				// store to captured named result of error type, value derived from NewPanicError
-				if fv, ok := x.Addr.(*ssa.FreeVar); ok && fv.Name() == "err" {
+				if fv, ok := x.Addr.(*ssa.FreeVar); ok && isNamedResult(d.Fn, fv.Name()) {
 					if hasOrigin(c.Origins(x.Val), "call:modules.Module.NewPanicError") {
 						handsOver, how = true, "stores the panic error to the named result"
 					}
@@ -627,4 +628,15 @@ func c06R9(c *Ctx, r *Report) {
 				"the error of this lifecycle pass never reaches the function's result (logged or overwritten only): the caller sees success although a routine failed or panicked", c.Pos(call.Pos()))
 		}
 	}
+}
+
+// isNamedResult: name is a named result of fn (a deferred closure can only change what fn returns through one of those).
+func isNamedResult(fn *ssa.Function, name string) bool {
+	res := fn.Signature.Results()
+	for i := 0; i < res.Len(); i++ {
+		if res.At(i).Name() == name && name != "" {
+			return true
+		}
+	}
+	return false
 }
